@@ -1,0 +1,13 @@
+//go:build verif
+
+package valuenotifier
+
+// VerifYield, when set (verification builds only), is called at named points of Listener.Wait so that a
+// test harness can hold a waiter inside a race window. It must only be set while no listener is in use.
+var VerifYield func(point string)
+
+func verifYield(point string) {
+	if f := VerifYield; f != nil {
+		f(point)
+	}
+}
